@@ -122,6 +122,12 @@ def case_direct(col, p):
             col.violation('C05:from_phi:direct%dD%s:density_modified' % (d, ':het_' + het if het else ''), dict(p, unit=idx), {'maxchange': float(np.abs(phi - snap).max())})
             phi = snap
         got = np.asarray(fs.data)
+        # sampling is linear: the negative of a unit density (a difference of two densities has negative parts) gives the negative spectrum
+        fneg = np.asarray(dadi.Spectrum.from_phi(-1.5 * phi, list(ns), grids, **kw).data)
+        col.tick(transitions=1)
+        if not float(np.abs(fneg + 1.5 * got).max()) <= 1e-14 * max(1.0, float(np.abs(got).max())):
+            col.violation('C05:from_phi:direct%dD%s:negative_density' % (d, ':het_' + het if het else ''), dict(p, unit=idx),
+                          {'maxerr': float(np.abs(fneg + 1.5 * got).max())})
         ex = Ds[0][:, idx[0]]
         for k in range(1, d):
             ex = np.multiply.outer(ex, Ds[k][:, idx[k]])
